@@ -312,7 +312,7 @@ int main(int argc, char **argv) {
     g_astep = mc_thorough ? 1 : 12;
     g_rstep = mc_thorough ? 1 : 3;
     poly_build_anchors();
-    snprintf(mc_bounds, sizeof mc_bounds, "13 shapes x 4 scales x %d anchors (%s) x resolutions %s x 4 modes x capacities {max, count-1, 0}; 16 invalid flag values", poly_nanchor,
+    snprintf(mc_bounds, sizeof mc_bounds, "14 shapes x 4 scales x %d anchors (%s) x resolutions %s x 4 modes x capacities {max, count-1, 0}; 16 invalid flag values", poly_nanchor,
              mc_thorough ? "all" : "all special anchors + every 12th base-cell centre/corner", mc_thorough ? "0..15" : "0,3,..,15 and 1,4,..,13 / 2,5,..,14 (sparser anchors)");
     snprintf(mc_bounds + strlen(mc_bounds), sizeof mc_bounds - strlen(mc_bounds), "; corner-tip polygons: 6 corners x %d sizes x %s anchors x all 16 resolutions", mc_thorough ? 4 : 2, mc_thorough ? "all" : "every 3rd base-cell centre + special");
     int r0 = 0;
